@@ -247,7 +247,20 @@ def c03b(ck, prog):
     fns = [f for f in prog.fns.values() if f.self_ty and (re.search(HDR, f.self_ty) or f.self_ty.startswith("ohkami::response::headers::SetHeaders")) and f.crate == "ohkami" and not f.trait]
     n = 0
     writers = set()
+    fnset = {f.key for f in fns}
+    own_helper = lambda caller, callee: callee.key in fnset
+
+    def private_helper(f):
+        """a non-public function of the header types called only from their other functions: its statements are judged
+        where they run, in the (inlined view of the) callers -- the size update may legitimately be the caller's"""
+        cs = prog.callers().get(f.key, [])
+        return bool(cs) and not f.pub and all(c.fn.key in fnset and c.fn.key != f.key for c in cs)
+
+    helpers = {f.key for f in fns if private_helper(f)}
     for f in fns:
+        if f.key in helpers:
+            continue
+        f = prog.inlined(f, 2, lambda caller, callee: callee.key in helpers)
         ss = size_stores(f)
         if ss:
             writers.add(f.name)
@@ -369,7 +382,7 @@ def c03b(ck, prog):
         ck.ob(R, "table:%s-literals" % f.name, ok, f.loc(None), "" if ok else "Headers::%s accounts for literals %r, the writer emits %r for this entry kind" % (f.name, got, want), how="accounts %r" % got)
     # pushes of append: ", " literal both pushed and accounted
     for nm in ("append", "append_custom"):
-        f = prog.method(HDR, nm)
+        f = prog.inlined(prog.method(HDR, nm), 2, lambda caller, callee: callee.key in helpers)
         pushed = [f.const_args(c)[1].get("s") for c in f.calls_to(r"String::push_str$") if f.const_args(c)[1]]
         ok = pushed and all(x == ", " for x in pushed)
         ck.ob(R, "table:%s-separator" % nm, bool(ok), f.loc(None), "" if ok else "Headers::%s joins values with %r but accounts for ', '" % (nm, pushed), how="push_str(', ')")
